@@ -12,6 +12,11 @@ CLAIMED = {
    note="Trusted: go/ssa front end, gcv VC generator, SMT solvers, math/bits axioms, pinned moduli. Assembly bodies under default tags are assumed contracts (listed in evidence). Inverse/Exp/Sqrt/Legendre/BatchInvert/vector ops not yet under contract (listed under not_covered).",
    technique="contract-based deductive verification: weakest-precondition style symbolic execution over go/ssa with //@ contracts, cut points with ghost quotients, SMT (z3 5.1, z3 4.8.12, cvc5 1.0)",
    design="§5 C01"),
+ "C02": dict(
+   text="Deductive proof at the ring layer that every branch of the Jacobian and extended-Jacobian point operations (AddAssign, SubAssign, AddMixed, DoubleAssign, Double, DoubleMixed, Neg, Set, FromAffine, FromJacobian, Equal, IsOnCurve, g1JacExtended add/double/addMixed/subMixed/doubleMixed/doubleNegMixed, unsafeFromJacExtended) of G1 and G2 of every curve returns a representative of the point prescribed by the textbook chord-and-tangent rules, for every projective representative of the operands (inputs parametrised by affine point and scaling, so that each clause is a polynomial identity), including the identity, equal-point and opposite-point branches.",
+   note="Trusted: ring-layer interpretation of coordinate-field methods; Z-lifting; textbook rules computed by the tool; field facts (integral domain, 2 != 0) that turn the exact scaling clauses into finiteness. Not under contract: affine Add/Sub/Double wrappers, IsInSubGroup, batch conversions, twisted-Edwards companions, stark-curve addition formulas.",
+   technique="contract-based deductive verification at an abstract-ring layer: symbolic execution of the formulas to polynomials, normal-form/SMT proof of the representation identities per branch",
+   design="§5 C02"),
  "C06": dict(
    text="Deductive proof at the ring layer: for the towers of bn254, bls12-377, bls12-381, bls24-315 and bls24-317, Add/Sub/Double/Neg/Conjugate/Mul/Square/MulByNonResidue/MulByElement/MulByE2 of every level and the sparse products (MulBy01, MulBy1, MulBy12, MulBy034, MulBy34, Mul034By034, Mul34By34, MulBy01234, MulBy014, Mul014By014, MulBy01245, ...) equal the schoolbook product in R[X]/(X^k - nr) computed by the tool from the documented defining polynomials; identities are proved over the integers (Z-lifting) by z3/cvc5 for every alias partition, including operands pointing into the receiver where the contract says so.",
    note="Trusted: ring-layer interpretation of lower-layer methods by their own contracts; Z-lifting; documented tower polynomials. Not under contract: Inverse/Div/Sqrt/Exp/Frobenius/cyclotomic squarings/torus compression, bw6 towers, small-field extensions; amd64 E2 assembly kernels are assumed contracts.",
